@@ -27,7 +27,7 @@ import numpy as np
 
 from ..core import Violation, short
 
-RUNS = {"quick": 320, "thorough": 20000}
+RUNS = {"quick": 480, "thorough": 20000}
 SELFCHECK = {"quick": 8, "thorough": 24}
 CROSS = {"quick": 16, "thorough": 256}
 CHUNK = 10
